@@ -16,6 +16,11 @@ header / data batches with application metadata, terminal = error type+message |
 error; the statement does not order log messages against data batches (C08 does), so traces are compared through
 ``proj``.  Timing, ids, tracebacks, server_id, request_id and fetch provenance are not observed.  The byte counts
 inside the "HTTP body exceeds max_response_bytes (N > M)" message are normalised away.
+max_response_bytes is a documented HARD cap for unary and exchange responses (C16): C01 compares calls whose single
+unary/exchange response fits the cap (premise `fits` of the theorems); a case answered with the cap error is tallied under
+excluded/unary-or-exchange-over-hard-cap and not compared (R_C01.C01_http_hard_cap_refuted documents the reading).
+C01 observes with a recording on_log callback; raising callbacks (C04/C08) are run and corresponded with the models but are
+not part of the cross-transport comparison (premise `records`).
 """
 from __future__ import annotations
 
@@ -228,34 +233,60 @@ def proj(tr: list[list[Any]]) -> tuple[list[Any], list[Any], list[Any]]:
     )
 
 
-def classify(kind: str, prog: dict[str, Any], sc: list[Any], mode: str, cfg: dict[str, Any], pipe: list[Any], http: list[Any]) -> str:
-    """Name the class of a pipe-vs-HTTP difference (specific keys; anything unforeseen is 'transport-traces-differ')."""
-    cap = cfg.get("max_response_bytes")
-    http_err = next((e for e in http if e[0] == "error"), None)
-    if http_err is not None and "HTTP body exceeds max_response_bytes" in http_err[2] and kind in ("unary", "exchange") and cap is not None:
-        return "http-hard-cap-replaces-unary-or-exchange-result"
-    if kind != "unary":
-        has_exc_log = any(l[0] == "EXCEPTION" for l in prog["init_logs"] + [l for st in prog["steps"] for l in st["logs"]])
-        if has_exc_log and proj(pipe)[1:] == proj(http)[1:] and len(proj(pipe)[0]) > len(proj(http)[0]):
-            return "socket-close-drain-delivers-logs-queued-after-an-exception-level-log"
-        init_raises = prog["init"] != "ok"
-        reads = sc[1].endswith("_h") or sc[4] == "stop" or sc[3] > 0
-        exc_init_log = any(l[0] == "EXCEPTION" for l in prog["init_logs"])
-        if not reads and (init_raises or sc[4] == "abandon" or exc_init_log) and len(pipe) < len(http):
-            return "socket-headerless-init-outcome-unobserved-until-first-read"
-        if kind == "producer" and sc[4] != "stop":
-            return "http-producer-runs-ahead-of-early-exit-client"
-        if kind == "producer" and http_err is not None and len(proj(http)[1]) < len(proj(pipe)[1]):
-            return "http-first-turn-error-discards-header-and-batches"
-    if mode == "raise":
-        return "raising-on_log-callback-observation-differs"
-    return "transport-traces-differ"
+def _prefix(a: list[Any], b: list[Any]) -> bool:
+    return len(a) <= len(b) and b[: len(a)] == a
+
+
+def over_hard_cap(kind: str, cfg: dict[str, Any], http: list[Any]) -> bool:
+    """Adopted reading (DESIGN Appendix E): max_response_bytes is a documented HARD cap for unary and exchange
+    responses (C16's subject); C01 compares calls whose single unary/exchange response fits it (theorem premise `fits`)."""
+    err = next((e for e in http if e[0] == "error"), None)
+    return (kind in ("unary", "exchange") and cfg.get("max_response_bytes") is not None and err is not None
+            and err[1] == "RuntimeError" and "HTTP body exceeds max_response_bytes" in err[2])
+
+
+def classify(kind: str, prog: dict[str, Any], sc: list[Any], mode: str, cfg: dict[str, Any], pipe: list[Any], http: list[Any]) -> list[str]:
+    """Name the class(es) of a pipe-vs-HTTP difference.  A listed key is returned only when the case lies in the
+    complement of the matching side condition of C01_agnostic_partial AND the differing component has the shape that
+    class predicts; a difference in a component that no class explains yields 'transport-traces-differ'."""
+    if kind == "unary":
+        return ["transport-traces-differ"]
+    pl, pv, pe = proj(pipe)
+    hl, hv, he = proj(http)
+    headerless = not sc[1].endswith("_h")
+    reads = (not headerless) or sc[4] == "stop" or sc[3] > 0
+    complete = kind != "producer" or sc[4] == "stop"
+    init_raises = prog["init"] != "ok"
+    exc_init_log = any(l[0] == "EXCEPTION" for l in prog["init_logs"])
+    has_exc_log = exc_init_log or any(l[0] == "EXCEPTION" for st in prog["steps"] for l in st["logs"])
+    # not (pipe_reads): headerless stream, the socket client never reads -> it sees a prefix of what HTTP reports at the call
+    if headerless and not reads and (init_raises or sc[4] == "abandon" or exc_init_log) and _prefix(pl, hl) and _prefix(pv, hv) and not pe and len(pipe) < len(http):
+        return ["socket-headerless-init-outcome-unobserved-until-first-read"]
+    # not (complete): early exit from a producer -- HTTP already ran the first turn (its logs, possibly its error)
+    if kind == "producer" and not complete and (_prefix(pl, hl) or (has_exc_log and _prefix(hl, pl))):
+        return ["http-producer-runs-ahead-of-early-exit-client"]
+    keys: list[str] = []
+    if pe != he:
+        return ["transport-traces-differ"]
+    is_err = bool(pe) and pe[0][0] == "error"
+    if pl != hl:
+        # not (no_exc_logs): the socket close()-drain dispatches the logs queued behind an EXCEPTION-level log
+        if has_exc_log and reads and is_err and len(pl) > len(hl) and _prefix(hl, pl):
+            keys.append("socket-close-drain-delivers-logs-queued-after-an-exception-level-log")
+        else:
+            return ["transport-traces-differ"]
+    if pv != hv:
+        # not (first_turn_ok): same error, but HTTP raised it at the call: no header / batch was delivered
+        if kind == "producer" and complete and is_err and hv == [] and pv != []:
+            keys.append("http-first-turn-error-discards-header-and-batches")
+        else:
+            return ["transport-traces-differ"]
+    return keys or ["transport-traces-differ"]
 
 
 # fixed witnesses = the witnesses of coq/refuted/R_C01.v, replayed on the real code on every run
 _OK = {"logs": [], "emit": {"rows": 1, "meta": None}, "finish": False, "raise": None}
 WITNESSES: list[tuple[str, str, dict[str, Any], list[Any], dict[str, Any]]] = [
-    ("http-hard-cap-replaces-unary-or-exchange-result", "unary", {"logs": [], "result": {"ok": 1}}, ["unary"], {"max_response_bytes": 1}),
     ("http-first-turn-error-discards-header-and-batches", "producer",
      {"init_logs": [], "init": "ok", "header": 0, "steps": [_OK, {"logs": [], "emit": None, "finish": False, "raise": ["ValueError", "boom"]}]},
      ["iterate", "producer", None, 0, "stop"], {"max_response_bytes": BIG}),
@@ -363,12 +394,21 @@ def run(ctx: Any) -> None:
                               {**repl, "cfg": cfg, "a": hbycap[cap], "b": tr})
             hbycap.setdefault(cap, tr)
             # (a) the property itself on the implementation
+            if over_hard_cap(kind, cfg, tr):
+                ctx.tally("excluded", "unary-or-exchange-over-hard-cap")
+                continue
+            if mode == "raise":
+                # a raising on_log callback is client misbehaviour (C04/C08); C01 observes with a recording callback.
+                # These cases still run everywhere and are compared with the models (correspondence), not with each other.
+                ctx.tally("excluded", "raising-on_log-callback")
+                continue
             if proj(tr) != proj(pipe):
-                key = classify(kind, prog, sc, mode, cfg, pipe, tr)
-                ctx.tally("pipe_vs_http", key)
-                if "witness" in c and key != c["witness"]:
-                    ctx.obligation(f"witness:{c['witness']}", "refuted-replay", False, f"witness now classifies as {key}")
-                ctx.violation(key, "client observation differs between the socket family and HTTP", {**repl, "http_cfg": cfg, "pipe": pipe, "http": tr})
+                keys = classify(kind, prog, sc, mode, cfg, pipe, tr)
+                if "witness" in c and keys != [c["witness"]]:
+                    ctx.obligation(f"witness:{c['witness']}", "refuted-replay", False, f"witness now classifies as {keys}")
+                for key in keys:
+                    ctx.tally("pipe_vs_http", key)
+                    ctx.violation(key, "client observation differs between the socket family and HTTP", {**repl, "http_cfg": cfg, "pipe": pipe, "http": tr})
             else:
                 ctx.tally("pipe_vs_http", "same")
                 if "witness" in c:
@@ -380,7 +420,7 @@ def run(ctx: Any) -> None:
         for cap in (None, 1, BIG):
             if cap in hbycap:
                 model_http.append((f"({c_cap(cap)}, {ps})", c_trace(hbycap[cap])))
-                keyinfo.append((cap, c, proj(hbycap[cap]) == proj(pipe)))
+                keyinfo.append((cap, c, proj(hbycap[cap]) == proj(pipe) or over_hard_cap(kind, {"max_response_bytes": cap}, hbycap[cap])))
         c["pipe"] = pipe
     ctx.log(f"implementation runs: {ctx.counters.get('impl_runs', 0)} in {time.time() - t_impl:.1f}s")
     ctx.count("external_uploads", len(I.MemStorage.data) - uploads_before)
@@ -390,15 +430,15 @@ def run(ctx: Any) -> None:
 
     # model side
     ty_in = "prog * script"
-    ok1, bad1, log1 = ctx.coq_mismatches(HEADER, "rp", "trace_eqb", model_pipe, ty_in, "list event", shard=60)
+    ok1, bad1, log1 = ctx.coq_mismatches(HEADER, "rp", "trace_eqb", model_pipe, ty_in, "list event", shard=40)
     ctx.obligation("correspondence:M_Wire.run_pipe", "correspondence", ok1 and not bad1, log1 if not ok1 else f"{len(bad1)} of {len(model_pipe)} cases disagree")
-    ok2, bad2, log2 = ctx.coq_mismatches(HEADER, "rh", "trace_eqb", model_http, f"option N * ({ty_in})", "list event", shard=60)
+    ok2, bad2, log2 = ctx.coq_mismatches(HEADER, "rh", "trace_eqb", model_http, f"option N * ({ty_in})", "list event", shard=40)
     ctx.obligation("correspondence:M_Wire.run_http", "correspondence", ok2 and not bad2, log2 if not ok2 else f"{len(bad2)} of {len(model_http)} cases disagree")
-    ok3, bad3, log3 = ctx.coq_mismatches(HEADER, "lg", "Bool.eqb", model_legal, ty_in, "bool", shard=200)
+    ok3, bad3, log3 = ctx.coq_mismatches(HEADER, "lg", "Bool.eqb", model_legal, ty_in, "bool", shard=40)
     ctx.obligation("generator:cases-are-legal", "correspondence", ok3 and not bad3, log3 if not ok3 else f"{len(bad3)} generated cases are not `legal`")
     # the proven class, evaluated in Coq on the generated cases: inside it the REAL traces must agree (the theorem's claim
     # on the implementation); outside it a difference carries one of the specific keys above
-    ok4, outside, log4 = ctx.coq_mismatches(HEADER, "incls", "Bool.eqb", [(a, "true") for a, _ in model_http], f"option N * ({ty_in})", "bool", shard=200)
+    ok4, outside, log4 = ctx.coq_mismatches(HEADER, "incls", "Bool.eqb", [(a, "true") for a, _ in model_http], f"option N * ({ty_in})", "bool", shard=40)
     outside_set = set(outside)
     n_in = 0
     for i, (cap, c, same) in enumerate(keyinfo):
